@@ -3787,6 +3787,18 @@ impl Zeroconf {
         };
 
         debug!("UnregisterResend from {:?}", if_addr);
+
+        // The socket is shared by all interfaces: select the outgoing one, as
+        // `send_dns_outgoing` does, or the packet leaves wherever the last one did.
+        let selected = match if_addr.ip() {
+            IpAddr::V4(ipv4) => sock.pktinfo.set_multicast_if_v4(&ipv4),
+            IpAddr::V6(_) => sock.pktinfo.set_multicast_if_v6(intf.index),
+        };
+        if let Err(e) = selected {
+            debug!("UnregisterResend: failed to set multicast interface: {}", e);
+            return;
+        }
+
         multicast_on_intf(
             &packet[..],
             &intf.name,
